@@ -725,7 +725,19 @@ pub fn drive(
         // gets duplicates / equal-length variants injected; sometimes it is
         // grown to 21..64 patterns, the range in which the packed searcher's
         // internal pattern ordering matters.
-        let (pats, alpha) = if li % 24 == 7 {
+        let (pats, alpha) = if li % 12 == 5 {
+            // the representation-stressing shapes of the structural monitors
+            // (wide nodes of every fan-out, chains, nested suffixes ...), here
+            // under the reference model
+            let p = crate::walk::shaped_patterns(&mut rng, li * ctx.nshards + ctx.shard);
+            let mut p: Vec<Vec<u8>> = if d.profile.allow_empty { p } else { p.into_iter().filter(|q| !q.is_empty()).collect() };
+            if p.is_empty() {
+                p.push(b"a".to_vec());
+            }
+            let mut a: Vec<u8> = p.iter().flat_map(|q| q.iter().copied()).take(8).collect();
+            a.push(b'a');
+            (p, a)
+        } else if li % 24 == 7 {
             // around the packed searcher's hard limit of 128 patterns: 120..200
             // patterns of length 2..5 over six symbols (many start bytes, no
             // usable rare-byte set, so the packed prefilter is in play)
@@ -851,6 +863,7 @@ pub fn run_c01(ctx: &Ctx, rep: &mut Report) {
     drive(ctx, rep, &d, &mut |rep, pats, b, hay, sp| {
         check_find_and_iter(rep, pats, b, hay, sp, false)
     });
+    dense_dictionary(ctx, rep, &[Kind::LeftmostFirst, Kind::LeftmostLongest]);
 }
 
 pub fn run_c02(ctx: &Ctx, rep: &mut Report) {
@@ -866,6 +879,7 @@ pub fn run_c02(ctx: &Ctx, rep: &mut Report) {
     drive(ctx, rep, &d, &mut |rep, pats, b, hay, sp| {
         check_find_and_iter(rep, pats, b, hay, sp, false)
     });
+    dense_dictionary(ctx, rep, &[Kind::Standard]);
 }
 
 pub fn run_c03(ctx: &Ctx, rep: &mut Report) {
@@ -882,6 +896,70 @@ pub fn run_c03(ctx: &Ctx, rep: &mut Report) {
         check_overlapping(rep, pats, b, hay, sp, false)
     });
     many_identifiers_in_one_state(ctx, rep);
+}
+
+/// A dictionary in which (almost) every trie state is a match state: one
+/// two-byte word first (its first byte is no word), then 250 one-byte words, then 45 000 two-byte
+/// words - tens of thousands of match states in one run of state identifiers
+/// (the builders shuffle match states to the front; whatever they do with
+/// long runs shows here). Checked against the reference model on short
+/// haystacks. Every fourth shard.
+pub fn dense_dictionary(ctx: &Ctx, rep: &mut Report, kinds: &[Kind]) {
+    if ctx.tier == Tier::Tiny || ctx.shard % 4 != 2 {
+        return;
+    }
+    let mut rng = Rng::new(ctx.seed).fork(0xD1C7 + ctx.shard as u64);
+    // (the first word's first byte is no word of its own: one non-match state,
+    // then nothing but match states in allocation order)
+    let mut pats: Vec<Vec<u8>> = vec![vec![255, 255]];
+    // (bytes 250..=255 begin no word, so that a search can fall back to the
+    // start state and stay there)
+    for b in 0..250u8 {
+        pats.push(vec![b]);
+    }
+    let mut seen = std::collections::HashSet::new();
+    seen.insert((255u8, 255u8));
+    while pats.len() < 45_000 {
+        let (a, b) = (rng.below(250) as u8, rng.below(256) as u8);
+        if seen.insert((a, b)) {
+            pats.push(vec![a, b]);
+        }
+    }
+    let kind = kinds[(ctx.shard / 4) % kinds.len()];
+    let imp = [Imp::TopAuto, Imp::LowNnfa, Imp::TopDfa, Imp::LowCnfa][(ctx.shard / 4) % 4];
+    let cfg = Cfg::new(imp, kind).pre(rng.chance(1, 2));
+    let s = match guard(|| cfg.build(&pats)) {
+        Ok(Ok(s)) => s,
+        other => {
+            rep.violation("build:dense_dictionary", format!("building the 45 000-word dictionary failed: {:?}", other.map(|r| r.map(|_| ()))), case_json(&[], &cfg, b"", (0, 0), false, "build"));
+            return;
+        }
+    };
+    let b = Built { cfg, s };
+    let o = Oracle::new(&pats, false, kind);
+    for k in 0..12 {
+        let n = 1 + rng.below(8);
+        let mut hay: Vec<u8> = (0..n).map(|_| rng.below(256) as u8).collect();
+        if k % 3 == 0 {
+            hay = vec![254, 254, 7, 9, 255, 255];
+        } else if k % 3 == 1 {
+            hay.extend_from_slice(&[251, 254, 253, 7]);
+        }
+        let exp = o.find(&hay, 0, hay.len(), false);
+        let exp_it = o.iter(&hay, 0, hay.len(), false);
+        let got = call(|| b.s.try_find(Input::new(&hay[..])));
+        let got_it = call(|| b.s.try_find_iter(Input::new(&hay[..])));
+        rep.evals(2);
+        rep.tally("dense_dictionary_searches");
+        if got != Ok(exp) || got_it.as_ref().ok() != Some(&exp_it) {
+            rep.violation(
+                &format!("find:{}:dense_dictionary", b.cfg.imp.name()),
+                format!("45 000-word dictionary (every state a match state): try_find = {:?}, try_find_iter = {:?}; the definition gives {:?} and {:?}", got, got_it, exp, exp_it),
+                case_json(&[vec![255, 255]], &b.cfg, &hay, (0, hay.len()), false, "find").with("note", J::s("patterns: [255,255], the single bytes 0..250, then random two-byte words up to 45 000 (regenerate from the seed)")),
+            );
+            return;
+        }
+    }
 }
 
 /// One automaton state carrying 2^16 pattern identifiers and more (duplicates
